@@ -316,6 +316,12 @@ pub fn replay(path: &str) -> i32 {
 pub fn check(property: &str, tier: &str, base_seed: u64, workers: usize, runs_override: Option<u64>) -> CheckResult {
     let t0 = Instant::now();
     let mut stages = stages_for(property, tier);
+    // maintenance aid: VERIF_ONLY_RUSTC=1 runs just the rustc stage (to sweep many seeds for rare compile errors)
+    let only_rustc = std::env::var("VERIF_ONLY_RUSTC").is_ok();
+    if only_rustc {
+        stages.truncate(1);
+        stages[0].runs = 16;
+    }
     if stages.is_empty() {
         eprintln!("HARNESS: sessim has no check for property {property}");
         return CheckResult { exit_code: 2 };
